@@ -31,9 +31,11 @@ impl TransferInfo {
             packet_transmission_tick = match target_acquisition_latency {
                 crate::sender::objectdesc::TargetAcquisition::AsFastAsPossible => None,
                 crate::sender::objectdesc::TargetAcquisition::WithinDuration(duration) => {
+                    // An empty object is sent as a single (close object) packet
                     let nb_packets = object
                         .transfer_length
-                        .div_ceil(oti.encoding_symbol_length as u64);
+                        .div_ceil(oti.encoding_symbol_length as u64)
+                        .max(1);
                     // TODO should we take into account the FEC encoding symbol length ?
                     Some(duration.div_f64(nb_packets as f64))
                 }
@@ -47,9 +49,11 @@ impl TransferInfo {
                             object.content_location
                         );
                     }
+                    // An empty object is sent as a single (close object) packet
                     let nb_packets = object
                         .transfer_length
-                        .div_ceil(oti.encoding_symbol_length as u64);
+                        .div_ceil(oti.encoding_symbol_length as u64)
+                        .max(1);
                     Some(duration.div_f64(nb_packets as f64))
                 }
             }
